@@ -82,3 +82,75 @@ Print Assumptions C15_to_pep440_tagged_sep.
 Theorem C15_is_pep440_tagged : forall (v : bool) (ds : list (list N)) (sep : list N) (t : btag) (num : list N), ds <> [] -> Forall dstr ds -> sep_ok sep -> all_digits num = true -> is_pep440 (tagged v ds sep t num) = true.
 Proof. exact is_pep440_tagged. Qed.
 Print Assumptions C15_is_pep440_tagged.
+
+(* ---- Proofs.Pep440VersionE2E ---- *)
+From Coq Require Import List Bool NArith ZArith Arith.
+From BV Require Import Lib.PyStr Lib.Decimal Lib.Regex Model.V2 Model.Pep440 Model.Cli Model.Rewrite Proofs.DottedFacts Proofs.Pep440VersionE2E.
+Import ListNotations.
+Theorem C15_convert_PV : convert_to_pep440 PV = PP.
+Proof. exact convert_PV. Qed.
+Print Assumptions C15_convert_PV.
+
+Theorem C15_norm_version : normalize_pattern PV s_version_ph = PV.
+Proof. exact norm_version. Qed.
+Print Assumptions C15_norm_version.
+
+Theorem C15_norm_pep440 : normalize_pattern PV s_pep440_ph = PP.
+Proof. exact norm_pep440. Qed.
+Print Assumptions C15_norm_pep440.
+
+Theorem C15_update_writes : forall (v : vinfo) (t : option (ltag * N)), state_of v t -> option_map cp_repl (v2_cpat PV s_version_ph v) = Some (vt (Z.to_N (v_major v)) (Z.to_N (v_minor v)) (Z.to_N (v_patch v)) t) /\ option_map cp_repl (v2_cpat PV s_pep440_ph v) = Some (pt (Z.to_N (v_major v)) (Z.to_N (v_minor v)) (Z.to_N (v_patch v)) t).
+Proof. exact update_writes. Qed.
+Print Assumptions C15_update_writes.
+
+Theorem C15_c15_same_version : forall (a b c : N) (t : option (ltag * N)), is_pep440 (vt a b c t) = true /\ is_pep440 (pt a b c t) = true /\ parse_pep440 (pt a b c t) = parse_pep440 (vt a b c t) /\ version_key (pt a b c t) = version_key (vt a b c t) /\ to_pep440 (vt a b c t) = to_pep440 (pt a b c t) /\ ver_lt (pt a b c t) (vt a b c t) = false /\ ver_lt (vt a b c t) (pt a b c t) = false /\ ver_le (pt a b c t) (vt a b c t) = true /\ ver_le (vt a b c t) (pt a b c t) = true.
+Proof. exact c15_same_version. Qed.
+Print Assumptions C15_c15_same_version.
+
+Theorem C15_pt_literal_iff : forall (a b c : N) (t : option (ltag * N)), pt a b c t = to_pep440 (vt a b c t) <-> dotless t = true.
+Proof. exact pt_literal_iff. Qed.
+Print Assumptions C15_pt_literal_iff.
+
+Theorem C15_pt_post_dev : forall a b c n : N, pt a b c (Some (Lpost, n)) = dotted [a; b; c] ++ s_post ++ dec n /\ to_pep440 (vt a b c (Some (Lpost, n))) = dotted [a; b; c] ++ [46%N] ++ s_post ++ dec n /\ pt a b c (Some (Ldev, n)) = dotted [a; b; c] ++ s_dev ++ dec n /\ to_pep440 (vt a b c (Some (Ldev, n))) = dotted [a; b; c] ++ [46%N] ++ s_dev ++ dec n.
+Proof. exact pt_post_dev. Qed.
+Print Assumptions C15_pt_post_dev.
+
+Theorem C15_pt_shape : forall (a b c : N) (t : option (ltag * N)), pt a b c t = dec a ++ [46%N] ++ dec b ++ [46%N] ++ dec c ++ pytext t ++ match t with | Some (_, n) => dec n | None => [] end /\ (exists (d : N) (tl : list N), pt a b c t = d :: tl /\ is_digit d = true) /\ (forall x : N, In x [a; b; c; lnum t] -> dec x = [48%N] \/ hd 0%N (dec x) <> 48%N) /\ assoc (tagtext t) Tables.PEP440_TAG_BY_TAG = Some (pytext t).
+Proof. exact pt_shape. Qed.
+Print Assumptions C15_pt_shape.
+
+Theorem C15_pt_read_back : forall (today : Z) (a b c : N) (t : option (ltag * N)), exists v : vinfo, parse_version_info today (pt a b c t) (convert_to_pep440 PV) = POk v /\ v = ST.svt_vinfo today (Z.of_N a) (Z.of_N b) (Z.of_N c) (pstate t) /\ v_major v = Z.of_N a /\ v_minor v = Z.of_N b /\ v_patch v = Z.of_N c /\ v_pytag v = pytext t /\ v_num v = Z.of_N (lnum t) /\ v_tag v = back_tag t /\ format_version v (convert_to_pep440 PV) = Some (pt a b c t).
+Proof. exact pt_read_back. Qed.
+Print Assumptions C15_pt_read_back.
+
+Theorem C15_c15_roundtrip : forall (today : Z) (a b c : N) (t : option (ltag * N)) (v : vinfo), parse_version_info today (vt a b c t) PV = POk v -> format_version v (normalize_pattern PV s_version_ph) = Some (vt a b c t) /\ format_version v (normalize_pattern PV s_pep440_ph) = Some (pt a b c t) /\ is_pep440 (pt a b c t) = true /\ version_key (pt a b c t) = version_key (vt a b c t) /\ to_pep440 (pt a b c t) = to_pep440 (vt a b c t).
+Proof. exact c15_roundtrip. Qed.
+Print Assumptions C15_c15_roundtrip.
+
+Theorem C15_c15_semver_update : forall (today : Z) (v : vinfo) (t : option (ltag * N)), state_of v t -> exists sv sp : list N, option_map cp_repl (v2_cpat PV s_version_ph v) = Some sv /\ option_map cp_repl (v2_cpat PV s_pep440_ph v) = Some sp /\ is_pep440 sv = true /\ is_pep440 sp = true /\ version_key sp = version_key sv /\ to_pep440 sv = to_pep440 sp /\ (dotless t = true -> sp = to_pep440 sv) /\ (exists v' : vinfo, parse_version_info today sp (convert_to_pep440 PV) = POk v' /\ v_major v' = Z.of_N (Z.to_N (v_major v)) /\ v_minor v' = Z.of_N (Z.to_N (v_minor v)) /\ v_patch v' = Z.of_N (Z.to_N (v_patch v)) /\ v_pytag v' = v_pytag v /\ v_num v' = v_num v).
+Proof. exact c15_semver_update. Qed.
+Print Assumptions C15_c15_semver_update.
+
+Theorem C15_convert_P2 : convert_to_pep440 P2 = P2'.
+Proof. exact convert_P2. Qed.
+Print Assumptions C15_convert_P2.
+
+Theorem C15_norm2_pep440 : normalize_pattern P2 s_pep440_ph = P2'.
+Proof. exact norm2_pep440. Qed.
+Print Assumptions C15_norm2_pep440.
+
+Theorem C15_c15_calver : forall (y m : N) (bid : list N) (t : option (ltag * N)), (m <= 12)%N -> all_digits bid = true -> bid <> [] -> lnum t = 0%N -> is_pep440 (cvt y m bid t) = true /\ is_pep440 (cpt y m bid t) = true /\ parse_pep440 (cpt y m bid t) = parse_pep440 (cvt y m bid t) /\ version_key (cpt y m bid t) = version_key (cvt y m bid t) /\ to_pep440 (cvt y m bid t) = to_pep440 (cpt y m bid t) /\ ver_lt (cpt y m bid t) (cvt y m bid t) = false /\ ver_lt (cvt y m bid t) (cpt y m bid t) = false.
+Proof. exact c15_calver. Qed.
+Print Assumptions C15_c15_calver.
+
+Theorem C15_c15_calver_update : forall (v : vinfo) (y m : Z) (t : option (ltag * N)), v_year_y v = Some y -> v_month v = Some m -> (Z.to_N m <= 12)%N -> state_of v t -> lnum t = 0%N -> all_digits (v_bid v) = true -> v_bid v <> [] -> exists sv sp : list N, option_map cp_repl (v2_cpat P2 s_version_ph v) = Some sv /\ option_map cp_repl (v2_cpat P2 s_pep440_ph v) = Some sp /\ is_pep440 sv = true /\ is_pep440 sp = true /\ version_key sp = version_key sv /\ to_pep440 sv = to_pep440 sp /\ (Z.to_N y <> 0%N -> dotless t = true -> sp = to_pep440 sv).
+Proof. exact c15_calver_update. Qed.
+Print Assumptions C15_c15_calver_update.
+
+Theorem C15_cpt_literal_iff : forall (y m : N) (bid : list N) (t : option (ltag * N)), y <> 0%N -> (m <= 12)%N -> cpt y m bid t = to_pep440 (cpt y m bid t) <-> dotless t = true.
+Proof. exact cpt_literal_iff. Qed.
+Print Assumptions C15_cpt_literal_iff.
+
+Theorem C15_bld_zero_not_read_back : forall today : Z, format_version (CV.cv_vinfo 2024 1 [48%N; 48%N; 48%N]) P2' = Some [50%N; 48%N; 50%N; 52%N; 48%N; 49%N; 46%N; 48%N] /\ parse_version_info today [50%N; 48%N; 50%N; 52%N; 48%N; 49%N; 46%N; 48%N] P2' = PErr.
+Proof. exact bld_zero_not_read_back. Qed.
+Print Assumptions C15_bld_zero_not_read_back.
